@@ -2,7 +2,7 @@
    All statements are for every program, all limits with a positive iteration limit, every constant
    folding function and every watchdog stream.  `permissive` is read at exactly one place of the model:
    where the main loop (for errors that end a thread) and JUMPI's stored error are RECORDED. *)
-From SLX Require Import Base gen.Constants gen.OpcodeTable SymVal Disasm VM proofs.VmBounds proofs.VmErrors.
+From SLX Require Import Base gen.Constants gen.OpcodeTable SymVal Disasm VM proofs.VmBounds proofs.VmErrors proofs.VmGasError.
 Open Scope N_scope.
 
 Section C17.
@@ -51,6 +51,14 @@ Proof. exact (C17_same_states_proof fold code L). Qed.
 Theorem C17_permissive_subset : forall n,
   incl (v_errors (final permissive_cfg n)) (v_errors (final strict n)).
 Proof. exact (C17_permissive_subset_proof fold code L). Qed.
+(* running out of gas is an execution error in BOTH modes, and it is always listed: along every run, every entry (ip, gas)
+   of the retirement log (what hook H3 prints) whose gas account exceeds the gas limit has a GasLimitExceeded error at that
+   instruction -- also when the thread ended at the same step for another reason (end of the code, the visit limit, a kill) *)
+Theorem C17_gas_exceeded_listed : forall cfg n ip g,
+  In (ip, g) (v_retired (final cfg n)) -> (gas_limit (v_cfg (final cfg n)) <? g) = true ->
+  In (ip, EGasLimitExceeded) (v_errors (final cfg n)).
+Proof. intros cfg n ip g. exact (gas_exceeded_listed_proof fold code cfg n ip g). Qed.
+
 End C17.
 
 (* non-vacuity: JUMPI to a non-JUMPDEST (stored error) then JUMP out of range (thread-ending error) *)
@@ -62,9 +70,19 @@ Example C17_hyps_met :
   v_errors (final (fun v => v) code (mk_config' L true) 20) = [].
 Proof. cbv zeta. split; [cbn; lia|]. split; [discriminate|]. split; vm_compute; reflexivity. Qed.
 
+(* non-vacuity: PUSH1 1 PUSH1 0 SSTORE (106 gas) falls off the end of the code; with a limit of 105 the thread retires above
+   the limit at instruction 4 and the error is listed there *)
+Example C17_gas_hyps_met :
+  let code := [IPush 1 [1]; INop; IPush 1 [0]; INop; IOp memory_SStore] in
+  let m := final (fun v => v) code (mk_config' (mk_limits 105 10 50 250 394 100 None) false) 20 in
+  existsb (fun p => (fst p =? 4) && (105 <? snd p)) (v_retired m) = true /\
+  map (fun e => (fst e, err_idx (snd e))) (v_errors m) = [(4, 9)].
+Proof. vm_compute. split; reflexivity. Qed.
+
 Print Assumptions C17_strict_records.
 Print Assumptions C17_errors_persist.
 Print Assumptions C17_locations_in_code.
 Print Assumptions C17_permissive_no_jump_errors.
 Print Assumptions C17_same_states.
 Print Assumptions C17_permissive_subset.
+Print Assumptions C17_gas_exceeded_listed.
